@@ -135,11 +135,16 @@ func TestC26(t *testing.T) {
 			results := make([]*callRes, 0, nCallers+3)
 			var resMu sync.Mutex
 			var wg sync.WaitGroup
+			gids := map[string]int64{}
+			var gidMu sync.Mutex
 			launch := func(name string, f func() (error, error)) {
 				wg.Add(1)
 				cr := &callRes{name: name, started: tick("start:" + name)}
 				go func() {
 					defer wg.Done()
+					gidMu.Lock()
+					gids[name] = curGoID()
+					gidMu.Unlock()
 					var err, cerr error
 					c26Call(int64(i)+1, func() { err, cerr = f() })
 					cr.err, cr.ctxErr = err, cerr
@@ -245,10 +250,36 @@ func TestC26(t *testing.T) {
 			if hang {
 				// bounded progress: only goroutines that are parked count as hung; if one of this
 				// run's calls is running / runnable the machine is just slow
-				states := goroutineStatesOf(fmt.Sprintf("props.c26Call(0x%x,", int64(i)+1))
+				time.Sleep(2 * time.Second) // look only after a grace period: late timers on a loaded machine
+				returnedNow := map[string]bool{}
+				resMu.Lock()
+				for _, cr := range results {
+					returnedNow[cr.name] = true
+				}
+				resMu.Unlock()
+				var states []string
+				gidMu.Lock()
+				for name, id := range gids {
+					if returnedNow[name] {
+						continue
+					}
+					st, _ := goroutineStateByID(id)
+					states = append(states, name+":"+st)
+					if !parkedState(st) {
+						states = append(states, "!")
+					}
+				}
+				gidMu.Unlock()
+				if len(states) == 0 {
+					// everything returned during the grace period
+					c.Close()
+					s.Close()
+					r.Count("late_but_returned", 1)
+					return
+				}
 				rep["goroutine_states"] = states
 				for _, st := range states {
-					if !parkedState(st) {
+					if st == "!" {
 						r.Inconclusive(fmt.Sprintf("C26 run %d (%s): a call did not return within %s but its goroutine is %q (machine load)", i, scenario, c26Bound, st))
 						c.Close()
 						s.Close()
